@@ -2,11 +2,33 @@
 """Writes MANIFEST.json from the table below (kept in one place so it stays valid)."""
 import json, subprocess
 
+TB = ("Trusted: Coq 8.16.1 kernel (vm_compute used, no native_compute), Flocq as the definition of binary32, the standard-library axioms listed by Print Assumptions in the evidence file (classic, sig_forall_dec, sig_not_dec, functional_extensionality_dep through Reals/Flocq only), extraction with ExtrOcamlBasic, ocamlopt, glibc libm through ocaml/stubs.c, the Rust harness. The theorems are about the hand-written Gallina model coq/*.v; the model is tied to /repo's current source by a differential run (extracted model vs. implementation on the same generated cases) on every check, and model-free falsifiers evaluate the property on the implementation.")
+
+def C(text, technique, ref, note=""):
+    return dict(text=text, note=(note + " " if note else "") + TB, technique=technique, ref=ref)
+
 CLAIMED = {
- "C14": dict(
-   text="Coq theorems (generic in the number structure, axiom-free) prove for every shape and content that flatten/get_flat give the row-major sequence, that reshape succeeds exactly on equal element counts, yields the requested shape, a well-formed tensor and the same sequence, that there-and-back is the identity and that unequal counts are refused; the hand-written Gallina model is tied to src/tensor.rs by a differential run (extracted model vs. implementation, bit-exact) over every source shape up to 4x4x4 (6x6x6 thorough) and all equal-count and unequal-count targets.",
-   note="Theorems are about the Gallina model coq/Tensor.v; the tie to src/tensor.rs is differential (exact comparison). Trusted: Coq kernel, extraction (ExtrOcamlBasic), ocamlopt, the Rust harness. Single->Single reshape returns the tensor unchanged without checking the length (stated in C14_reshape_ok/refused).",
-   technique="Coq proof by list induction + model/code differential run", ref="3/C14"),
+ "C14": C("Coq theorems (generic in the number structure, axiom-free) prove for every shape and content that flatten/get_flat give the row-major sequence, that reshape succeeds exactly on equal element counts, yields the requested shape, a well-formed tensor and the same sequence, that there-and-back is the identity and that unequal counts are refused. Tie: every source shape up to 4x4x4 (6x6x6 thorough) with all equal-count and unequal-count targets, compared exactly (recorded shape and nested lengths included).",
+          "Coq proof by list induction + model/code differential run", "3/C14",
+          "Single->Single reshape returns the tensor unchanged without checking the length (stated in C14_reshape_ok/refused)."),
+ "C15": C("Coq theorems: shape-mismatched operands are refused; for equal shapes the result keeps the shape and every element is the operator applied to the two elements at its position, for ranks 1-4; mean over k tensors (k=0 and mismatches refused; closed form (self + ((-0+o1)+...))/(k+1)); outer product, matrix-vector product, transpose by their definitions; and over Flocq binary32: add/sub/mul/div ARE the correctly rounded IEEE-754 operations, clamp lies in the interval. Tie: every operation x rank x value stream (random bits, +-0, denormals, huge) and every single-dimension shape perturbation, compared bit for bit.",
+          "Coq proof (lists + Flocq) + exact differential run", "3/C15"),
+ "C13": C("Coq theorems about the generic epoch loop (arbitrary per-sample, step and validate functions, hence every validation-loss trajectory, tolerance and epoch budget): history lengths, stop only if the closed-form rule stop_at holds at the last epoch run, rule false at every earlier epoch, all epochs without validation data; the rule is proved equal to 'more than T epochs and no loss <= its predecessor in the last T'. Tie + falsifier: a 1->1 linear network steered through rising/falling/oscillating/plateau trajectories for T in 1..6, E in 1..12.",
+          "Coq proof by induction over epochs + exact differential run + trajectory oracle", "3/C13"),
+ "C04": C("Coq theorems about the generic training loop (arbitrary gradient, accumulation and optimizer functions): chunks partition the samples in order (non-empty, <= B, all but the last full, ceil(N/B) of them), zipping chunked inputs/targets = chunking the pairs, one epoch = for each group one step with step number = epoch on the in-order gradient sum evaluated at the weights before the step, epoch loss = mean of group means, E epochs = E iterations; trace instance: exactly one step per group seeing exactly its samples. Tie: learn (and two consecutive learns) on dense/conv nets for N in 1..7, B in {1,2,3,4,8}, all optimizers; falsifier: bit-exact hand replay with forward/backward/update.",
+          "Coq proof (refinement of the model's loop to a pure spec) + differential run + bit-exact replay", "3/C04"),
+ "C12": C("Coq theorems for any ordered parallel map: predict_batch = map predict (any length; the 64-chunking is invisible), validate = in-order means of loss(predict) and per-sample accuracy over the zipped samples, predict = last activation of forward. Tie: soft-max and tolerance accuracy, data-set sizes {1,2,63,64,65,127,128,129,200}, networks with skip/loop connections; falsifier recomputes both means from predict and objective.loss.",
+          "Coq proof (chunk/concat lemmas) + differential run + recomputation oracle", "3/C12"),
+ "C05": C("Model-level proof + schedule exploration. Coq: an ordered collect along ANY split tree equals the sequential map; learn, validate and predict_batch of the model instantiated with any per-region schedule are equal (hence bit-identical); contrast lemma: a binary32 tree reduction does depend on the tree. Runtime part (cannot be exhibited by the model): the same training/validation/prediction job in rayon pools of 1,2,3,5,8,16,33 threads, repeated, with a seeded perturbation hook in every parallel work item; all losses, accuracies, weights and ordered predictions must be bit-identical.",
+          "Coq proof of schedule independence of the model + thread-pool/perturbation exploration of the implementation", "3/C05",
+          "Partial: rayon's work stealing itself, data races (excluded by Rust's typing) and HashMap iteration order are not modelled; they are explored, not proved."),
+ "C10": C("Coq invariant proof (no assumption on the optimizer step): feedback_create yields pairwise disjoint couples of same-kind layers holding identical parameters; one update re-establishes tying WITHOUT assuming it; hence tied after any history of updates (any gradients, batch sizes, step numbers, accumulation in {add, subtract, multiply, mean}); the parameter count sums one repetition. Tie: learn on dense/conv/deconv blocks x loops 1..4 x 4 accumulations x 5 optimizers, weights of every unrolled copy and the parameter count; falsifier: bitwise equality of all copies.",
+          "Coq inductive invariant over update histories + differential run + invariant check on the implementation", "3/C10"),
+ "C03": C("Coq theorems: the vector, matrix and 3-D copies of the update apply one scalar rule position by position to weights, mutated gradient and state (closed forms row_fun/mat_fun/cube_fun), so results do not depend on the rank; an update leaves every other (layer, filter, bias) slot of every state array unchanged. The scalar rules transcribe the documented equations. Tie: histories of up to 40 steps, every option combination x rank, interleavings over slots, non-monotone step numbers, network-level multi-filter layers; falsifiers: f64 reference of the documented equations, rank independence, slot isolation, NaN scan (centred RMSprop regression).",
+          "Coq proof (element-wise lifting + frame) + bit-exact differential run + reference equations", "3/C03",
+          "Partial: the no-NaN clause is checked by the falsifier only (no Flocq proof of finiteness across histories)."),
+ "C18": C("Coq theorems: every state lies in [0,m); the u64 product of a step cannot overflow for any seed and a seed is equivalent to its residue; the sequence is a function of the seed; over Flocq binary32, for EVERY state and all finite min <= max, generate(min,max) is finite and lies in [min,max]; shuffle never panics for any seed and length and returns a permutation. Tie: seeds small / reaching the 64 largest states / above 2^64/48271 / u64::MAX; falsifier over 2^16..2^22 states x 10 intervals.",
+          "Coq proof (Z arithmetic, Flocq order reasoning, Permutation) + exact differential run + state sweep", "3/C18"),
 }
 PENDING = {}
 
